@@ -658,6 +658,97 @@ def eval_numbers_extracted(exe, xs):
     return res
 
 
+def run_single_process(lines):
+    """the given worker lines, in order, in ONE fresh interpreter"""
+    script = os.path.join(common.VERIF, "harness", "impl", "c16_impl.py")
+    p = subprocess.run([common.PY, script], input="\n".join(json.dumps(c) for c in lines) + "\n", stdout=subprocess.PIPE,
+                       stderr=subprocess.PIPE, text=True, env=common.impl_env(), timeout=1800, cwd=common.scratch())
+    if p.returncode != 0:
+        raise RuntimeError("c16_impl failed in the history run:\n%s" % p.stderr[-1500:])
+    return [json.loads(l) for l in p.stdout.split("\n") if l.strip()]
+
+
+def history_lines(values, obs, kinds, rng, n_docs=120, n_nums=60):
+    """one interpreter, one history: canonicalize() questions (documents with several members first: they show a lost
+    sort; numbers; strings) asked, then other public calls of the package -- serialize() in both utf8 modes,
+    canonicalize(utf8=True/False), JSONEncoder with other options, convert2Es6Format on odd arguments incl. ones that
+    raise, canonicalize of values that raise -- then the same questions again.  -> (lines, index of each ask or None)"""
+    docs = [i for i, (v, o, k) in enumerate(zip(values, obs, kinds)) if k == "doc" and "ok" in o and n_multi_objects(v)]
+    nums = [i for i, (o, k) in enumerate(zip(obs, kinds)) if k in ("num", "int") and "ok" in o]
+    ask = rng.sample(docs, min(n_docs, len(docs))) + rng.sample(nums, min(n_nums, len(nums)))
+    if not ask:
+        return [], []
+    some = [values[i] for i in ask[:40]]
+    ops = []
+    for v in some[:12]:
+        ops.append({"op": "serialize", "v": enc(v), "utf8": rng.random() < 0.5})
+        ops.append({"op": "canonicalize_utf8", "v": enc(v)})
+        ops.append({"op": "canonicalize_text", "v": enc(v)})
+        ops.append({"op": "encoder", "v": enc(v), "sort_keys": rng.random() < 0.5, "ensure_ascii": rng.random() < 0.5})
+    ops += [{"op": "canonicalize_raises", "what": w} for w in ("nan", "inf", "set", "key", "nonstr_key")]
+    ops += [{"op": "convert", "what": w} for w in ("nan", "inf", "ninf", "big", "text", "numtext", "true", "none", "negzero", "tiny", "int")]
+    rng.shuffle(ops)
+    lines, asked = [], []
+    third = max(1, len(ask) // 3)
+    for i in ask[:third]:
+        lines.append({"v": enc(values[i])}); asked.append(i)
+    step = max(1, len(ops) // 4)
+    rest = ask
+    for k in range(0, len(ops), step):
+        for op in ops[k:k + step]:
+            lines.append({"hist": op}); asked.append(None)
+        for i in rng.sample(rest, min(len(rest), max(10, len(rest) // 3))):
+            lines.append({"v": enc(values[i])}); asked.append(i)
+    for i in ask:
+        lines.append({"v": enc(values[i])}); asked.append(i)
+    return lines, asked
+
+
+def history_violations(values, obs, kinds, rng):
+    lines, asked = history_lines(values, obs, kinds, rng)
+    if not lines:
+        return [], 0, {}
+    res = [dec_obs(o) if "hist" not in o else o for o in run_single_process(lines)]
+    out, n, ops = [], 0, {}
+    for k, (ln, i, r) in enumerate(zip(lines, asked, res)):
+        if i is None:
+            ops[r.get("hist", "?")] = ops.get(r.get("hist", "?"), 0) + 1
+            continue
+        n += 1
+        if r.get("ok") != obs[i].get("ok") or r.get("exc") != obs[i].get("exc"):
+            # shortest history: drop earlier asks, keep the operations
+            hist = [x for x in lines[:k] if "hist" in x]
+            out.append(Violation(
+                "canonicalize() depends on what the process did before: %r in a fresh interpreter, %r after %d other public "
+                "calls of the canonicalization package in the same interpreter"
+                % (clip(obs[i].get("ok", obs[i].get("exc")), r.get("ok", r.get("exc", ""))),
+                   clip(r.get("ok", r.get("exc", "")), obs[i].get("ok", obs[i].get("exc"))), len(hist)),
+                {"kind": "history", "v": enc(values[i]), "hist": hist}))
+            if len(out) >= 3:
+                break
+    return out, n, ops
+
+
+def shrink_history(v, hist):
+    """greedy: drop operations while the answer still differs from the fresh-interpreter answer"""
+    fresh = run_cases([v])[0]
+
+    def differs(h):
+        r = dec_obs(run_single_process([{"hist": x["hist"]} for x in h] + [{"v": enc(v)}])[-1])
+        return r.get("ok") != fresh.get("ok") or r.get("exc") != fresh.get("exc")
+
+    if not differs(hist):
+        return hist
+    i = 0
+    while i < len(hist) and len(hist) > 1:
+        cand = hist[:i] + hist[i + 1:]
+        if differs(cand):
+            hist = cand
+        else:
+            i += 1
+    return hist
+
+
 def run_cases(values):
     return [dec_obs(o) for o in common.run_impl("c16_impl", [{"v": enc(v)} for v in values])]
 
@@ -762,7 +853,9 @@ def check(run):
         "code point order, strings over control/ASCII/BMP/astral classes, deep shuffles of member order, small streams with "
         "NaN/Infinity and lone surrogates. Each value goes through canonicalize(v, utf8=False) and the Coq model; numbers "
         "also through py_repr/es6_tostring from independently obtained shortest digits. Non-trivial = the result is a text "
-        "(not an exception) and the value is not a bare null/true/false.")
+        "(not an exception) and the value is not a bare null/true/false. History stream: a sample of the questions is asked "
+        "again in one interpreter around other public calls of the package (serialize, canonicalize utf8=True, JSONEncoder "
+        "with other options, convert2Es6Format and canonicalize on arguments that raise); answers must equal the fresh-interpreter ones.")
     with common.Lock():
         src_ints = source_step(run)
         res = common.build_props("Props/C16.v")
@@ -870,6 +963,17 @@ def check(run):
     vio = violations_for(values, obs)
     vio += order_violations(groups, obs)
 
+    # ---- history independence: the same questions after other public calls in one interpreter
+    try:
+        hv, n_hist, hist_ops = history_violations(values, obs, kinds, rng)
+        for v in hv[:1]:
+            v.replay["hist"] = shrink_history(dec(v.replay["v"]), v.replay["hist"][:200])
+        vio += hv
+        run.coverage["history_asks"] = n_hist
+        run.coverage["history_ops"] = hist_ops
+    except RuntimeError as e:
+        run.broken.append(Broken("correspondence", "history run failed", {"error": str(e)[-800:]}))
+
     # ---- search harder when something no longer checks and the ordinary stream found nothing
     if run.broken and not vio:
         import random
@@ -898,7 +1002,7 @@ def check(run):
         seen_kind[k] = seen_kind.get(k, 0) + 1
         if seen_kind[k] > 3:
             continue
-        if k != "order":
+        if k not in ("order", "history"):
             val = dec(v.replay["v"])
             if isinstance(val, (list, dict)):
                 small = shrink(val, k)
@@ -926,6 +1030,18 @@ def replay(payload):
     r = payload["replay"]
     kind = r["kind"]
     v = dec(r["v"])
+    if kind == "history":
+        fresh = run_cases([v])[0]
+        after = dec_obs(run_single_process([{"hist": x["hist"]} for x in r["hist"]] + [{"v": enc(v)}])[-1])
+        print("replay history: fresh interpreter        -> %r" % (fresh.get("ok", fresh.get("exc")),))
+        print("                after %3d public calls   -> %r" % (len(r["hist"]), after.get("ok", after.get("exc"))))
+        for h in r["hist"][:5]:
+            print("                  call: %s" % json.dumps(h["hist"])[:160])
+        if fresh.get("ok") != after.get("ok") or fresh.get("exc") != after.get("exc"):
+            print("VIOLATION property=C16 replay=(given)")
+            return 1
+        print("no violation on this input")
+        return 0
     if kind == "order":
         w = dec(r["w"])
         a, b = run_cases([v, w])
